@@ -4,6 +4,24 @@ HERE = os.path.dirname(os.path.dirname(os.path.abspath(__file__)))
 sys.path.insert(0, HERE)
 from checker.props import PROPS, NOT_APPLICABLE, LEVEL_TEXT
 
+def level_text(pid, c):
+    if pid in LEVEL_TEXT and 'still being built' not in LEVEL_TEXT[pid]:
+        return LEVEL_TEXT[pid]
+    fns = [f.split(':')[1] for f in c.get('functions', [])]
+    if not fns:
+        return LEVEL_TEXT[pid]
+    t = ('contract-based deductive verification of the real code: %d functions under side-car contracts (%s)%s%s; every obligation (postconditions, '
+         'loop invariants, frames, absence of unexpected exceptions, lemma steps) is regenerated from /repo on each run and discharged by z3 / cvc5 for '
+         'all inputs; a bounded native check of the same contracts on the real code runs beside it and is never counted as proved. '
+         % (len(fns), ', '.join(fns), (', %d lemmas/theorems' % len(c['lemmas'])) if c.get('lemmas') else '',
+            (', Lean 4 lemmas ' + ', '.join(n for _, n in c['lean'])) if c.get('lean') else ''))
+    if c.get('explanation'):
+        t += c['explanation'] + ' '
+    if c.get('assumptions'):
+        t += 'Stated limits: ' + '; '.join(c['assumptions']) + '.'
+    return t
+
+
 checks = []
 for pid in sorted(PROPS):
     c = PROPS[pid]
@@ -14,7 +32,7 @@ for pid in sorted(PROPS):
         evidence_file='/verif/evidence/%s.json' % pid,
         replay_cmd_template='./check %s --replay {path}' % pid,
         engine='pyvc',
-        level_claimed=dict(category=c['level'], text=LEVEL_TEXT[pid], design_ref='DESIGN.md section ' + c.get('design_ref', '2')),
+        level_claimed=dict(category=c['level'], text=level_text(pid, c), design_ref='DESIGN.md section ' + c.get('design_ref', '2')),
         level_note=c.get('level_note', 'trusted: the VC generator /verif/pyvc and its Python semantics table, z3/cvc5, floats as reals, numpy/str library models, class invariant assumed at method entry; see evidence.assumptions'),
         technique=c.get('technique', 'contract-based deductive verification: VCs generated from the AST of the real functions (side-car contracts, loop invariants, inductive lemmas), discharged by z3; bounded native contract check beside it'),
     ))
